@@ -24,16 +24,32 @@ let str_obs ob =
   let sq = if ob.o_seq = [] then "" else " S=" ^ String.concat "," (List.map string_of_n ob.o_seq) in
   Printf.sprintf "%s T=%s P=%s V=%s%s" status tot pr vs sq
 
+let str_cobs co =
+  let status = if co.co_panic then "PANIC" else str_err co.co_err in
+  let body ob = match String.index_opt (str_obs ob) ' ' with
+    | Some i -> let s = str_obs ob in String.sub s (i + 1) (String.length s - i - 1)
+    | None -> "" in
+  let rp = String.concat "," (List.map (function None -> "x" | Some a -> string_of_n a) co.co_rounds) in
+  Printf.sprintf "%s H=%s LC=%s L{%s} C{%s} N{%s} RP=%s" status (string_of_z co.co_height) (string_of_z co.co_changed)
+    (body co.co_last) (body co.co_cur) (body co.co_next) rp
+
 let () =
   let lines = read_lines stdin in
   let st = ref init_slots in
+  let ch = ref init_chain in
+  let crun o ask =
+    let (ch', co) = chain_step !st !ch o (ask = "1") in
+    ch := ch'; print_endline (str_cobs co) in
   let run o ask =
     let (st', ob) = step !st o (ask = "1") in
     st := st'; print_endline (str_obs ob) in
   List.iter (fun line ->
       match tokens line with
       | [] -> ()
-      | "CASE" :: id :: _ -> st := init_slots; Printf.printf "CASE %s\n" id
+      | "CASE" :: id :: _ -> st := init_slots; ch := init_chain; Printf.printf "CASE %s\n" id
+      | ["G"; slot; ask] -> crun (CGenesis (nat_of_int (int_of_string slot))) ask
+      | "B" :: ask :: _ :: rest -> crun (CBlock (vals_of rest)) ask
+      | ["J"; src; dst; ask; k] -> run (OpCopyInc (nat_of_int (int_of_string src), nat_of_int (int_of_string dst), z_of_string k)) ask
       | "N" :: slot :: ask :: _ :: rest -> run (OpNew (nat_of_int (int_of_string slot), vals_of rest)) ask
       | ["I"; slot; ask; k] -> run (OpInc (nat_of_int (int_of_string slot), z_of_string k)) ask
       | "U" :: slot :: ask :: _ :: rest -> run (OpUpd (nat_of_int (int_of_string slot), vals_of rest)) ask
